@@ -59,6 +59,19 @@ Proof. exact: Gain.submat_rows_down. Qed.
 Theorem adjoint_general : H \in unitmx -> (forall i, col i S = dsm1 i) ->
   gain_adjoint H A dsm1 solveLin = A *m (invmx H)^T *m S.
 Proof. exact: Gain.adjoint_general. Qed.
+(* C08's clause "and therefore of every dipole gain" for the adjoint classes: column i is a function of dipole i's own source
+   column and primary-field column only, whatever the batch (no blocks, no neighbours) *)
+Theorem gain_adjoint_column_local : forall i, col i (gain_adjoint H A dsm1 solveLin) = linsolve H solveLin A *m dsm1 i.
+Proof. exact: Gain.gain_adjoint_col. Qed.
+Theorem gain_meg_adjoint_column_local : forall i,
+  col i (gain_meg_adjoint H B P dsm1 solveLin) = linsolve H solveLin B *m dsm1 i + col i P.
+Proof. exact: Gain.gain_meg_adjoint_col. Qed.
+Theorem gain_eegmeg_adjoint_eeg_column_local : forall i,
+  col i (gain_eegmeg_adjoint_eeg H A B dsm1 solveLin) = submat_rows 0 me (linsolve H solveLin (eegmeg_rhs A B)) *m dsm1 i.
+Proof. exact: Gain.gain_eegmeg_adjoint_eeg_col. Qed.
+Theorem gain_eegmeg_adjoint_meg_column_local : forall i,
+  col i (gain_eegmeg_adjoint_meg H A B P dsm1 solveLin) = submat_rows me mm (linsolve H solveLin (eegmeg_rhs A B)) *m dsm1 i + col i P.
+Proof. exact: Gain.gain_eegmeg_adjoint_meg_col. Qed.
 End C04.
 
 Print Assumptions linsolve_transposes_twice.
